@@ -166,7 +166,7 @@ struct Model {
       case MK_GE: return x >= o;
       case MK_ANYOF: return x == o || x == o + 2;
       // the argument is the range {x, x + 1, x}
-      case MK_RINC2: case MK_RINC11: case MK_RIS: case MK_RSTART: case MK_RENDS: case MK_RPERM: return x == o;
+      case MK_RINC2: case MK_RINC11: case MK_RIS: case MK_RSTART: case MK_RENDS: case MK_RENDS3: case MK_RPERM: return x == o;
       case MK_RALL: return x >= o;              // every element >= o
       case MK_RNONE: return !(o == x || o == x + 1);
       case MK_RANY: return o == x || o == x + 1;
